@@ -7,9 +7,9 @@ Property theorems about `Model/Fetch.lean` (`fetch env cfg L A = (outcome, post)
 * `delegate_sigrefs_monotone` (from `sigrefs_monotone`, which holds for *every* namespace): a stored
   `rad/sigrefs` is, after any fetch and for every outcome, the same commit or one that git ancestry reports as
   `Ahead` of it — never behind, never diverged, never deleted.
-* `below_threshold_fails_unchanged`: if fewer delegates than the threshold in force can have valid signed
-  refs at all (stored before the fetch, or validly offered by it), the fetch does not succeed and storage is
-  unchanged; `failed_unchanged`: `Failed` always means unchanged.
+* `below_threshold_fails_unchanged`: if fewer delegates than the threshold in force have valid signed refs
+  (`delegateValid`: stored and not invalidated by this fetch, or validated by this fetch), the fetch does not
+  succeed and storage is unchanged; `failed_unchanged`: `Failed` always means unchanged.
 * `threshold_arith`: the threshold in force is the identity threshold, minus one iff the local node is a
   delegate; blocked delegates — and, on `pull`, the local node — are not among the delegates that count.
 -/
@@ -36,37 +36,67 @@ theorem delegate_sigrefs_monotone (env : Env) (hw : EnvWf env) (cfg : Config) (L
     ∃ c', (fetch env cfg L A).2.get (d, env.nSig) = some c' ∧ (c' = c ∨ env.anc c c' = some .ahead) :=
   sigrefs_monotone env hw cfg L A d c hc
 
-/-- The special references offered by the fetch (advertised `rad/id` / `rad/sigrefs` that pass the scope and
-block-list filters, or the announced `refs_at`). -/
-def offer (env : Env) (cfg : Config) (anchor : Doc) (A : Refdb) : Refdb :=
+/-- The result of the special-refs stage of the fetch (which references the serving side offered, and which
+remotes' signed refs are loaded); empty if the stage itself fails. -/
+def stageOf (env : Env) (cfg : Config) (anchor : Doc) (A : Refdb) : Stage :=
   match specialStage env cfg (blockedOf cfg) (delegatesOf cfg anchor) (thresholdOf cfg anchor) A with
-  | .ok stage => stage.sp
-  | .error _ => []
+  | .ok stage => stage
+  | .error _ => { sp := [], loadKeys := [] }
 
-/-- **C02, second sentence**: if fewer delegates than the threshold in force can have valid signed refs —
-counting every considered delegate with a `rad/sigrefs` stored before the fetch or validly offered by it — the
-fetch does not report success and local storage is unchanged. -/
+/-- **C02, second sentence**: if fewer delegates than the threshold in force have valid signed refs — in the
+reading fixed by `delegateValid`: stored and not invalidated by this fetch, or validated by this fetch; a
+delegate whose offered data fails a check in this fetch does not count even if valid refs are stored for it —
+the fetch does not report success and local storage is unchanged. -/
 theorem below_threshold_fails_unchanged (env : Env) (cfg : Config) (L A : Refdb) (anchor : Doc)
     (ha : anchorOf cfg = some anchor) (hnd : anchor.delegates.Nodup)
-    (hlt : (canBeValid env L (offer env cfg anchor A) (delegatesOf cfg anchor)).length < thresholdOf cfg anchor) :
+    (hlt : (validDelegates env L (stageOf env cfg anchor A) (blockedOf cfg) (delegatesOf cfg anchor)).length
+      < thresholdOf cfg anchor) :
     (fetch env cfg L A).2 = L ∧ ∀ rs, (fetch env cfg L A).1 ≠ .success rs := by
   rcases fetch_cases env cfg L A with h | ⟨anchor', stage, sr, l, ha', hs, hsr, hl, hge, _, _⟩
   · exact h
   · exfalso
     rw [ha] at ha'; injection ha' with ha'; subst ha'
-    have hoffer : offer env cfg anchor A = stage.sp := by unfold offer; rw [hs]
-    rw [hoffer] at hlt
-    obtain ⟨hload, _⟩ := remoteRefsLoad_spec stage.loadKeys [] sr hsr (by simp) List.Pairwise.nil
+    have hstage : stageOf env cfg anchor A = stage := by unfold stageOf; rw [hs]
+    rw [hstage] at hlt
+    obtain ⟨hload, hsorted⟩ := remoteRefsLoad_spec stage.loadKeys [] sr hsr (by simp) List.Pairwise.nil
+    obtain ⟨hcomp, _, hkeys⟩ := remoteRefsLoad_complete stage.loadKeys [] sr hsr
     have hnd' : (delegatesOf cfg anchor).Nodup := hnd.filter _
-    obtain ⟨hsub, hvnd⟩ := validateAll_valid sr _ l hl hload
+    obtain ⟨hsub, hvnd⟩ := validateAll_valid_exact
+      (fun x => delegateValid env L stage (blockedOf cfg) (delegatesOf cfg anchor) x = true) sr _ l hl hsorted
+      (by
+        intro e he hg
+        have hin : stage.loadKeys.contains e.1 = true := by
+          rcases hkeys e he with h | ⟨v, h⟩
+          · simpa using h
+          · simp at h
+        have hld := hload e he
+        simp only [delegateValid, hin, if_true, hld]
+        cases hv : verdictOf env L stage.sp (blockedOf cfg) (delegatesOf cfg anchor) e.1 e.2.1 e.2.2 <;>
+          simp_all [verdictGood])
       (by
         intro x hx
         simp only [storedDelegates, List.mem_filter] at hx
-        unfold canBeValid
-        rw [List.mem_filter]
-        exact ⟨hx.1, by simp [hx.2]⟩)
+        refine ⟨fun _ => hx.2, fun hnot => ?_⟩
+        simp only [delegateValid]
+        split
+        · rename_i hin
+          rcases hcomp x (by simpa using hin) with hnone | ⟨v, hv⟩
+          · have := cachedLoad_none_not_stored hnone
+            rw [this] at hx; simp at hx
+          · exact absurd ⟨(x, v), hv, rfl⟩ hnot
+        · exact hx.2)
+      (by
+        intro x hx
+        simp only [storedDelegates, List.mem_filter] at hx
+        simpa using hx.1)
       (hnd'.filter _)
-    have := length_le_of_subset_nodup hvnd hsub
+    have := length_le_of_subset_nodup hvnd (m := validDelegates env L stage (blockedOf cfg) (delegatesOf cfg anchor))
+      (by
+        intro x hx
+        obtain ⟨hg, hd⟩ := hsub x hx
+        unfold validDelegates
+        rw [List.mem_filter]
+        exact ⟨by simpa using hd, hg⟩)
     omega
 
 /-- `FetchResult::Failed` leaves local storage unchanged. -/
@@ -141,16 +171,28 @@ open Witness2 in
 /-- The hypothesis of `below_threshold_fails_unchanged` is satisfiable: a clone (nothing stored) in which
 delegate 1 is offered only with an invalid signature cannot reach the threshold 2. -/
 example : anchorOf (cfg true) = some doc ∧ doc.delegates.Nodup ∧
-    (canBeValid env [] (offer env (cfg true) doc [((0, 1), 20), ((1, 1), 121)])
+    (validDelegates env [] (stageOf env (cfg true) doc [((0, 1), 20), ((1, 1), 121)]) (blockedOf (cfg true))
       (delegatesOf (cfg true) doc)).length < thresholdOf (cfg true) doc ∧
     (fetch env (cfg true) [] [((0, 1), 20), ((1, 1), 121)]).1 = .error := by
   refine ⟨rfl, by decide, by decide, rfl⟩
 
 open Witness2 in
 /-- … and with delegate 1 not offered at all the outcome is `Failed`. -/
-example : (canBeValid env [] (offer env (cfg true) doc [((0, 0), 9), ((0, 1), 20)])
+example : (validDelegates env [] (stageOf env (cfg true) doc [((0, 0), 9), ((0, 1), 20)]) (blockedOf (cfg true))
       (delegatesOf (cfg true) doc)).length < thresholdOf (cfg true) doc ∧
     fetch env (cfg true) [] [((0, 0), 9), ((0, 1), 20)] = (.failed, []) := by
   refine ⟨by decide, rfl⟩
+
+open Witness2 in
+/-- The shape of the seeded change `C02-late-stored-delegates`: pull, delegates {0, 1}, threshold 2, both
+stored; delegate 0 is offered ahead and valid, delegate 1 is stored but the server offers nothing for it
+(`MissingRadSigRefs`; a bare `rad/id` of some remote 7 gets the advertisement past `ensure_threshold`): only ONE delegate is valid in this fetch, the hypothesis of
+`below_threshold_fails_unchanged` holds, the fetch is `Failed` and storage is unchanged. -/
+example : L.get (0, env.nSig) = some 21 ∧ L.get (1, env.nSig) = some 120 ∧
+    validDelegates env [((0, 1), 20), ((0, 2), 30), ((1, 1), 120), ((1, 2), 130)]
+      (stageOf env (cfg false) doc [((0, 1), 21), ((7, 0), 5)]) (blockedOf (cfg false)) (delegatesOf (cfg false) doc) = [0] ∧
+    fetch env (cfg false) [((0, 1), 20), ((0, 2), 30), ((1, 1), 120), ((1, 2), 130)] [((0, 1), 21), ((7, 0), 5)] =
+      (.failed, [((0, 1), 20), ((0, 2), 30), ((1, 1), 120), ((1, 2), 130)]) := by
+  refine ⟨by decide, by decide, by decide, rfl⟩
 
 end HeartwoodModel.Fetch
